@@ -169,11 +169,13 @@ class Replayer:
                 sd.tainted = True
         node.fails.append(rec)
 
-    def build_only(self, node, beh, k, side, tbl, obs):
-        """C19: dialects without a driver: build_query must give one SELECT, twice the same text, or a documented refusal."""
+    def build_only(self, node, beh, k, side, tbl, obs, append=True):
+        """C19: build_query must give one SELECT, twice the same text, or a documented refusal (all there is to check for the
+        dialects without a driver; with opts['buildq'] also checked on SQLite before the table is exported)."""
         R = self.R
         bk = side.backend
-        side.frames.append(None)
+        if append:
+            side.frames.append(None)
         try:
             q1 = tbl >> R.build_query()
             q2 = tbl >> R.build_query()
@@ -197,6 +199,8 @@ class Replayer:
         bk = side.backend
         if bk in ("postgres", "mssql"):
             return self.build_only(node, beh, k, side, tbl, obs)
+        if bk == "sqlite" and self.opts.get("buildq"):
+            self.build_only(node, beh, k, side, tbl, obs, append=False)
         # --- metadata accessors (C11)
         try:
             meta_cols = tbl >> R.columns()
@@ -224,6 +228,8 @@ class Replayer:
         if names != obs["names"]:
             self.fail(node, beh, k, bk, "names", f"exported {names}, specification {obs['names']}")
             if sorted(names) != sorted(obs["names"]):
+                if self.opts.get("targets"):      # the targets must agree with each other whatever the specification says
+                    self.check_targets(node, beh, k, bk, tbl, df, obs)
                 return df
             # same set, different order: compare data by name
             df_cmp = df.select(obs["names"])
